@@ -125,7 +125,7 @@ def run(ctx):
     check_properties(ctx)
     if not build_driver(ctx, "solve"): return
     reqs = gen_requests(ctx)
-    outs = run_driver(ctx, "solve", "".join(r.to_input() for _, r in reqs), timeout=1500)
+    outs = run_driver(ctx, "solve", [r.to_input() for _, r in reqs], timeout=1500)
     if outs is None or len(outs) != len(reqs):
         ctx.broke("correspondence", "drv_solve", "driver produced %s results for %d runs rc=%s %s" % (None if outs is None else len(outs), len(reqs), getattr(ctx, "driver_rc", "?"), getattr(ctx, "driver_err", "")))
         return
